@@ -761,13 +761,94 @@ def check_result_buffers(run, A, module_prefixes, rule='R-DTYPE'):
     return n
 
 
+def block_partition_verdict(it, sl):
+    """the loop `for b in <it>` and the slice term `sl` (bounds computed from b): do consecutive blocks starting at 0 reach the end of the axis for every extent?
+    -> ('full', number of extents folded) | ('short', extent, end reached, extents for which the end IS reached) | None (no walk over consecutive blocks, or not foldable)"""
+    from .inteval import int_eval, UNKNOWN
+    from .walk import const_val, same_value
+
+    def symbols(z, out, depth=0):
+        if not isinstance(z, T) or depth > 25:
+            return
+        z0 = strip_views(z)
+        if z0.op in ('unpack',) and isinstance(z0.args[0], T) and strip_views(z0.args[0]).op == 'attr' and strip_views(z0.args[0]).args[1] == 'shape':
+            out.append(z0)
+            return
+        if z0.op == 'sub' and isinstance(z0.args[0], T) and strip_views(z0.args[0]).op == 'attr' and strip_views(z0.args[0]).args[1] == 'shape':
+            out.append(z0)
+            return
+        if is_call_to(z0, 'builtin.len'):
+            out.append(z0)
+            return
+        if z0.op == 'param':
+            out.append(z0)
+            return
+        if z0.op == 'elem':
+            return
+        for a in z0.args:
+            if isinstance(a, T):
+                symbols(a, out, depth + 1)
+            elif isinstance(a, tuple):
+                for b in a:
+                    if isinstance(b, T):
+                        symbols(b, out, depth + 1)
+                    elif isinstance(b, tuple):
+                        for c in b:
+                            if isinstance(c, T):
+                                symbols(c, out, depth + 1)
+    syms = []
+    symbols(it, syms)
+    for z in sl.args:
+        symbols(z, syms)
+    uniq = []
+    for s_ in syms:
+        if not any(s_ is u or same_value(s_, u) for u in uniq):
+            uniq.append(s_)
+    if len(uniq) != 1:
+        return None
+    consts = sorted({c for z in list(sl.args) + [it] if isinstance(z, T) for y in walk_terms(z, into_mu=False) for c in [const_val(y)]
+                     if isinstance(c, int) and not isinstance(c, bool) and c > 1})
+    extents = sorted({v for c in consts for v in (c - 1, c, c + 1, c + c // 2, 2 * c - 1, 2 * c, 2 * c + 1, 3 * c) if 0 < v <= 50000} | {1, 2, 3, 4, 5, 7})
+    verdicts = {}
+    for T_ in extents:
+        env = {('term', u.id): T_ for u in syms}
+        its = int_eval(it, env)
+        if its is UNKNOWN or not isinstance(its, tuple):
+            return None
+        spans = []
+        for b in its:
+            env2 = dict(env)
+            env2[('elem', it.id)] = b
+            lo, hi, st = (int_eval(x, env2) if isinstance(x, T) else UNKNOWN for x in sl.args)
+            if lo is UNKNOWN or hi is UNKNOWN or st is UNKNOWN or st not in (None, 1) or not all(v is None or (isinstance(v, int) and not isinstance(v, bool)) for v in (lo, hi)):
+                return None
+            r_ = range(T_)[slice(lo, hi)]
+            spans.append((r_.start, r_.stop) if len(r_) else None)
+        spans = [s_ for s_ in spans if s_ is not None]
+        if not spans:
+            verdicts[T_] = ('none', 0)
+            continue
+        contiguous = spans[0][0] == 0 and all(a[1] == b[0] for a, b in zip(spans, spans[1:]))
+        verdicts[T_] = ('partition', spans[-1][1]) if contiguous else ('other', None)
+    if not verdicts:
+        return None
+    kinds = {v[0] for v in verdicts.values()}
+    if 'other' in kinds or 'partition' not in kinds:
+        return None          # not a walk over consecutive blocks from the start of the axis
+    full = [T_ for T_, v in verdicts.items() if v[0] == 'partition' and v[1] == T_]
+    short = [(T_, v[1]) for T_, v in verdicts.items() if (v[0] == 'partition' and v[1] < T_) or (v[0] == 'none' and T_ > 0)]
+    if full and short:
+        return ('short', short[0][0], short[0][1], full)
+    if full:
+        return ('full', len(verdicts))
+    return None
+
+
 def check_block_partitions(run, A, module_prefixes, rule='R-COVER'):
     """a loop that walks over an axis block by block - its index only forms the bounds lo:hi of slices, consecutive iterations continue where the last one stopped, the first one
     starts at 0 - visits every entry of the axis for EVERY extent: `range(n // block)` blocks, `range(block, n + 1, block)` block ends, `np.arange(0, n + 1, block)` edges leave the
     last partial block out whenever n is not a multiple of the block size.  Decided by folding the loop bounds and the slice bounds for extents around the literal block sizes
     that occur in them (pbv/inteval.py); a loop whose blocks reach the end of the axis for some extents and stop short for others is reported with the extent and what is left out."""
-    from .inteval import int_eval, UNKNOWN
-    from .walk import const_val, same_value
     n = 0
     for fn in A.prog.all_funcs():
         if not any(fn.mod.name == p.rstrip('.') or fn.mod.name.startswith(p) for p in module_prefixes):
@@ -788,94 +869,18 @@ def check_block_partitions(run, A, module_prefixes, rule='R-COVER'):
                 for x in walk_terms(e_.term):
                     if x.op == 'slice' and any(isinstance(z, T) and of_loop(z) for z in x.args) and not any(x is y for y in slices):
                         slices.append(x)
-            if not slices:
-                continue
-            # the one unknown: the extent the bounds are computed from (a name unpacked from a shape, x.shape[i], len(x), an integer parameter)
-            def symbols(z, out, depth=0):
-                if not isinstance(z, T) or depth > 25:
-                    return
-                z0 = strip_views(z)
-                if z0.op in ('unpack',) and isinstance(z0.args[0], T) and strip_views(z0.args[0]).op == 'attr' and strip_views(z0.args[0]).args[1] == 'shape':
-                    out.append(z0)
-                    return
-                if z0.op == 'sub' and isinstance(z0.args[0], T) and strip_views(z0.args[0]).op == 'attr' and strip_views(z0.args[0]).args[1] == 'shape':
-                    out.append(z0)
-                    return
-                if is_call_to(z0, 'builtin.len'):
-                    out.append(z0)
-                    return
-                if z0.op == 'param':
-                    out.append(z0)
-                    return
-                if z0.op == 'elem':
-                    return
-                for a in z0.args:
-                    if isinstance(a, T):
-                        symbols(a, out, depth + 1)
-                    elif isinstance(a, tuple):
-                        for b in a:
-                            if isinstance(b, T):
-                                symbols(b, out, depth + 1)
-                            elif isinstance(b, tuple):
-                                for c in b:
-                                    if isinstance(c, T):
-                                        symbols(c, out, depth + 1)
             for sl in slices:
-                syms = []
-                symbols(it, syms)
-                for z in sl.args:
-                    symbols(z, syms)
-                uniq = []
-                for s_ in syms:
-                    if not any(s_ is u or same_value(s_, u) for u in uniq):
-                        uniq.append(s_)
-                if len(uniq) != 1:
+                v = block_partition_verdict(it, sl)
+                if v is None:
                     continue
-                S = uniq[0]
-                consts = sorted({c for z in list(sl.args) + [it] if isinstance(z, T) for y in walk_terms(z, into_mu=False) for c in [const_val(y)]
-                                 if isinstance(c, int) and not isinstance(c, bool) and c > 1})
-                extents = sorted({v for c in consts for v in (c - 1, c, c + 1, c + c // 2, 2 * c - 1, 2 * c, 2 * c + 1, 3 * c) if 0 < v <= 50000} | {1, 2, 3, 4, 5, 7})
-                verdicts = {}
-                for T_ in extents:
-                    env = {('term', u.id): T_ for u in syms}
-                    its = int_eval(it, env)
-                    if its is UNKNOWN or not isinstance(its, tuple):
-                        verdicts = None
-                        break
-                    spans = []
-                    for b in its:
-                        env2 = dict(env)
-                        env2[('elem', it.id)] = b
-                        lo, hi, st = (int_eval(x, env2) if isinstance(x, T) else UNKNOWN for x in sl.args)
-                        if lo is UNKNOWN or hi is UNKNOWN or st is UNKNOWN or st not in (None, 1) or not all(v is None or (isinstance(v, int) and not isinstance(v, bool)) for v in (lo, hi)):
-                            spans = None
-                            break
-                        r_ = range(T_)[slice(lo, hi)]
-                        spans.append((r_.start, r_.stop) if len(r_) else None)
-                    if spans is None:
-                        verdicts = None
-                        break
-                    spans = [s_ for s_ in spans if s_ is not None]
-                    if not spans:
-                        verdicts[T_] = ('none', 0)
-                        continue
-                    contiguous = spans[0][0] == 0 and all(a[1] == b[0] for a, b in zip(spans, spans[1:]))
-                    verdicts[T_] = ('partition', spans[-1][1]) if contiguous else ('other', None)
-                if not verdicts:
-                    continue
-                kinds = {v[0] for v in verdicts.values()}
-                if 'other' in kinds or 'partition' not in kinds:
-                    continue          # not a walk over consecutive blocks from the start of the axis
                 n += 1
-                full = [T_ for T_, v in verdicts.items() if v[0] == 'partition' and v[1] == T_]
-                short = [(T_, v[1]) for T_, v in verdicts.items() if (v[0] == 'partition' and v[1] < T_) or (v[0] == 'none' and T_ > 0)]
-                if full and short:
-                    T_, end = short[0]
+                if v[0] == 'short':
+                    _, T_, end, full = v
                     run.violation(rule, f'{fn.qual.split("::")[1]}: the blocks of the loop at line {L.node.lineno} cover the whole axis', fn.loc(getattr(sl, 'node', None) or L.node),
                                   f'`{norm_stmt(L.node.iter)[:70]}` with the slice `{norm_stmt(sl.node)[:50] if getattr(sl, "node", None) is not None else "lo:hi"}`: for an axis of length {T_} the '
                                   f'blocks end at {end} - entries {end}..{T_ - 1} are never visited (for lengths like {full[:3]} they reach the end): the last, partial block is left out',
                                   construct=f'{rule}::{fn.qual}::last-block')
-                elif full:
-                    run.ok(rule, f'{fn.qual.split("::")[1]}: the blocks of the loop at line {L.node.lineno} cover the whole axis', fn.loc(L.node), f'folded for {len(verdicts)} extents')
+                else:
+                    run.ok(rule, f'{fn.qual.split("::")[1]}: the blocks of the loop at line {L.node.lineno} cover the whole axis', fn.loc(L.node), f'folded for {v[1]} extents')
     run.count('loops over consecutive blocks of an axis examined', n)
     return n
